@@ -713,6 +713,7 @@ for (const [cls, { index, run, v }] of [...first.entries()].sort()) {
   agg.violations.push({ class: cls, replay: p, first_seen_in_run: index });
   lines.push(`VIOLATION property=${PROP} replay=${p} class=${cls}`);
 }
+if (ONESHOT) delete agg.workspace_mode;
 agg.wall_s = (Date.now() - t0) / 1000;
 agg.what = "ssim's C14 histories executed end to end: the working tree's commandeer.ts / bundler.ts / bundle-to-disk.ts / project.ts in watch mode on a real scratch directory, the real compiler session (native, sim bridge) behind them; at every checkpoint the session's last build and the generated file are compared with a brand-new one-shot process";
 if (ONESHOT) agg.what = "one-shot runs end to end (the working tree's commandeer.ts / bundler.ts / bundle-to-disk.ts / project.ts, the real compiler behind them via sim bridge) of the projects ssim generates for C10: five brand-new processes per project that differ in how the project is reached (absolute path, through a symbolic link, relative path, working directory inside the linked project; packages under node_modules are symbolic links into a store) and in the compiler's hash keys; what the compiler returns and the generated file must be identical";
